@@ -344,8 +344,8 @@ def f1_union_encode(ctx, L):
             "discriminator_bytes = self._discriminator_type._encode(d.discriminator, endianness).ljust(self._ALIGNMENT, b'\\x00')",
             'body_bytes = d.encode_fcn(self, d.type, value, endianness)',
             "return (discriminator_bytes + body_bytes).ljust(self._SIZE, b'\\x00')"]
-    steps = {'disc': any('self._discriminator_type._encode(d.discriminator, endianness).ljust(self._ALIGNMENT,' in s for s in src),
-             'arm': any('d.encode_fcn(self, d.type, value, endianness)' in s for s in src),
+    steps = {'disc': any(inn('self._discriminator_type._encode(d.discriminator, endianness).ljust(self._ALIGNMENT,', s) for s in src),
+             'arm': any(inn('d.encode_fcn(self, d.type, value, endianness)', s) for s in src),
              'tail': any(s.startswith('return (discriminator_bytes + body_bytes).ljust(self._SIZE,') for s in src)}
     for k, ok in steps.items():
         L.check(ok, 'F1.union-steps', 'union.encode|' + k, f.site(),
@@ -503,8 +503,8 @@ def f6_count_guard(ctx, L):
     idx = {k: i for i, k in enumerate(order)}
     d = ctx.py.mod('prophy.descriptor').func('decode_array_delimiter')
     src = unparse(d.node)
-    L.check('value, size = type_._decode(data, pos, endianness)' in src and 'for array_name in type_._BOUND:' in src
-            and 'len_hints[array_name] = value' in src and 'return size' in src, 'F6.count-bounded',
+    L.check(inn('value, size = type_._decode(data, pos, endianness)', src) and inn('for array_name in type_._BOUND:', src)
+            and inn('len_hints[array_name] = value', src) and 'return size' in src, 'F6.count-bounded',
             d.fq + '|hints', d.site(), 'the sizer decoder must publish the count to len_hints for every bound array', src)
     neg = [s for s in d.node.body if isinstance(s, ast.If) and unparse(s.test) == 'value < 0' and terminates(s.body)]
     L.check(bool(neg), 'F6.count-bounded', d.fq + '|negative', d.site(), 'negative counts must be rejected', src)
@@ -560,18 +560,117 @@ def f15_optional_aware(ctx, L):
 
 
 # ------------------------------------------------------------------------------------------------ F16 / layout
-def stmt_srcs(f, into_nested=False):
-    """Alpha-normalised source of every simple statement of f (order-insensitive lookups)."""
+import builtins as _builtins
+
+
+def _canon(src_or_node, globals_):
+    """Statement text with every *local* name (anything that is not a builtin, a module-level name, self or cls) replaced by
+    a placeholder numbered by first appearance: comparisons are insensitive to renaming of locals and parameters."""
+    node = src_or_node
+    if isinstance(node, str):
+        try:
+            node = ast.parse(node).body[0]
+        except SyntaxError:
+            return re.sub(r'\s+', ' ', src_or_node)
+    import copy
+    node = copy.deepcopy(node)
+    order = {}
+    # ast.walk is breadth-first; number names in source order instead
+    names = sorted((n for n in ast.walk(node) if isinstance(n, ast.Name)), key=lambda n: (n.lineno, n.col_offset))
+    for n in names:
+        if n.id in globals_ or hasattr(_builtins, n.id) or n.id in ('self', 'cls'):
+            continue
+        if n.id not in order:
+            order[n.id] = '_L%d' % len(order)
+        n.id = order[n.id]
+    for n in ast.walk(node):
+        if isinstance(n, ast.arg) and n.arg in order:
+            n.arg = order[n.arg]
+    return re.sub(r'\s+', ' ', unparse(node))
+
+
+import keyword as _keyword
+
+
+def piece_regex(piece, globals_):
+    """Regex for a (possibly multi-statement) source fragment in which every *local* identifier may be consistently renamed:
+    first occurrence -> named group, later occurrences -> back-reference. Attributes, keywords, builtins and module-level names
+    stay literal."""
     out = []
+    seen = {}
+    prev = ''
+    for tok in re.findall(r'[A-Za-z_]\w*|\s+|.', piece):
+        if re.match(r'^[A-Za-z_]\w*$', tok):
+            literal = (prev == '.' or _keyword.iskeyword(tok) or hasattr(_builtins, tok) or tok in globals_ or tok in ('self', 'cls'))
+            if literal:
+                out.append(re.escape(tok))
+            elif tok in seen:
+                out.append('(?P=%s)' % seen[tok])
+            else:
+                seen[tok] = 'n%d' % len(seen)
+                out.append('(?P<%s>[A-Za-z_]\\w*)' % seen[tok])
+        elif tok.isspace():
+            out.append(r'\s+')
+        else:
+            out.append(re.escape(tok))
+        if not tok.isspace():
+            prev = tok
+    return re.compile(''.join(out))
+
+
+def contains(src, piece, globals_):
+    """`piece in src` modulo consistent renaming of local names (and inside string literals nothing is renamed: a quoted
+    word is literal because quotes are ordinary characters and identifiers inside keep their spelling only if global -
+    so pieces with string literals are matched literally first)."""
+    if piece in src:
+        return True
+    if "'" in piece or '"' in piece:
+        return False
+    return piece_regex(piece, globals_).search(src) is not None
+
+
+ALL_GLOBALS = set()
+
+
+def init_globals(tree):
+    """Module-level names of every analysed module (they stay literal in rename-tolerant fragment matching)."""
+    if not ALL_GLOBALS:
+        for m in tree.modules.values():
+            ALL_GLOBALS.update(module_globals(m))
+        ALL_GLOBALS.update(('t', 'p'))     # ply production objects: parameter names fixed by convention, index positions matter
+
+
+def inn(piece, src):
+    """`piece in src`, tolerant to consistent renaming of local names."""
+    return contains(src, piece, ALL_GLOBALS)
+
+
+def module_globals(module):
+    g = set(module.imports)
+    for st in module.tree.body:
+        if isinstance(st, (ast.FunctionDef, ast.ClassDef)):
+            g.add(st.name)
+        elif isinstance(st, ast.Assign):
+            for t in st.targets:
+                if isinstance(t, ast.Name):
+                    g.add(t.id)
+    return g
+
+
+def stmt_srcs(f, into_nested=False):
+    """Source of every simple statement of f with locals canonicalised (order-insensitive lookups)."""
+    out = []
+    g = module_globals(f.module)
     for n in f.walk(into_nested):
         if isinstance(n, (ast.Assign, ast.AugAssign, ast.Return, ast.Expr, ast.Raise, ast.Delete)):
-            out.append(re.sub(r'\s+', ' ', unparse(n)))
+            out.append(_canon(n, g))
     return out
 
 
 def has(f, *alternatives):
     srcs = stmt_srcs(f)
-    return any(a in srcs for a in alternatives)
+    g = module_globals(f.module)
+    return any(_canon(a, g) in srcs for a in alternatives)
 
 
 def f16_runtime_layout(ctx, L):
@@ -602,21 +701,23 @@ def f16_runtime_layout(ctx, L):
     ok, v = (False, None)
     if isinstance(seed, ast.Assign):
         ok, v = try_const(seed.value)
-    L.check(ok and v in (0, 1) and unparse(seed.targets[0]) == 'alignment', 'F16.block-alignment-fold', 'add_attributes|seed',
+    L.check(ok and v in (0, 1) and isinstance(seed.targets[0], ast.Name), 'F16.block-alignment-fold', 'add_attributes|seed',
             f.site(seed), 'the fold over alignments must start from 1', unparse(seed))
+    tv = unparse(lp.target)                                   # the member-type loop variable
+    av = unparse(seed.targets[0]) if isinstance(seed, ast.Assign) else 'alignment'   # the running block alignment
     body = [re.sub(r'\s+', ' ', unparse(s)) for s in lp.body]
-    want_tail = ['alignment = max(wire_alignment(type_), alignment)',
-                 'alignment = max(type_._OPTIONAL_ALIGNMENT if type_._OPTIONAL else type_._ALIGNMENT, alignment)']
+    want_tail = ['%s = max(wire_alignment(%s), %s)' % (av, tv, av),
+                 '%s = max(%s._OPTIONAL_ALIGNMENT if %s._OPTIONAL else %s._ALIGNMENT, %s)' % (av, tv, tv, tv, av)]
     L.check(len(lp.body) == 2 and isinstance(lp.body[0], ast.If) and body[1] in want_tail, 'F16.block-alignment-fold',
             'add_attributes|aggregate', f.site(lp), 'each member must contribute max(slot alignment, running alignment) after the '
             'dynamic-field test', ' ; '.join(body))
     if isinstance(lp.body[0], ast.If):
         ib = [re.sub(r'\s+', ' ', unparse(s)) for s in lp.body[0].body]
-        L.check(ib == ['type_._PARTIAL_ALIGNMENT = alignment', 'alignment = 1'] and not lp.body[0].orelse,
+        L.check(ib == ['%s._PARTIAL_ALIGNMENT = %s' % (tv, av), '%s = 1' % av] and not lp.body[0].orelse,
                 'F16.block-alignment-fold', 'add_attributes|block-end', f.site(lp.body[0]),
                 'a dynamic field closes a block: it gets the alignment of the block that follows, then the fold restarts at 1',
                 ' ; '.join(ib))
-        block_splitter(ctx, L, f, lp.body[0].test)
+        block_splitter(ctx, L, f, lp.body[0].test, tv)
     inner = gen.func('struct_generator.add_attributes.get_padded_sizes')
     src = re.sub(r'\s+', ' ', unparse(inner.node))
     for piece, why in (('offset = 0', 'offsets start at 0'), ('for size, alignment in zip(sizes, alignments):', 'each size is paired with the alignment of the NEXT member (the last with the struct alignment)'),
@@ -624,7 +725,7 @@ def f16_runtime_layout(ctx, L):
                        ('padding = distance_to_next_multiply(offset, alignment)', 'padding is the distance to the next multiple'),
                        ('offset += padding', 'the running offset adds the padding'), ('yield padding', 'every padding is counted')):
         L.check(piece in src, 'F16.layout-formula', 'get_padded_sizes|' + piece, inner.site(), why, '')
-    L.check('types[1:]] + [cls._ALIGNMENT]' in src, 'F16.layout-formula', 'get_padded_sizes|next-alignment', inner.site(),
+    L.check(inn('types[1:]] + [cls._ALIGNMENT]', src), 'F16.layout-formula', 'get_padded_sizes|next-alignment', inner.site(),
             'padding after member i aligns member i+1; after the last member, the struct', '')
     guard = [n for n in f.node.body if isinstance(n, ast.If) and 'struct_packed' in unparse(n.test)]
     L.check(len(guard) == 1 and re.sub(r'\s+', ' ', unparse(guard[0].test)) == 'not issubclass(cls, struct_packed) and cls._descriptor',
@@ -720,12 +821,12 @@ def eval_rt_guard(test, var, t):
     raise AnalysisError('block splitter predicate has an unrecognised term: %s' % unparse(test))
 
 
-def block_splitter(ctx, L, f, test):
+def block_splitter(ctx, L, f, test, var='type_'):
     """docs/encoding.rst: blocks end with dynamic fields - every member whose type is dynamic."""
     for name, t in sorted(ABSTRACT_RT.items()):
         if name in ('unlimited struct', 'greedy array', 'greedy bytes'):
             continue    # can only be the last member (struct_generator.validate): no block follows, value irrelevant
-        got = eval_rt_guard(test, 'type_', t)
+        got = eval_rt_guard(test, var, t)
         want = t['DYNAMIC']
         L.check(got == want, 'E6.block-splitter', 'add_attributes|' + name, f.site(test),
                 'the runtime\'s "dynamic field" predicate `%s` is %s for a %s member but the documented block rule (and the '
